@@ -46,11 +46,12 @@ type Run struct {
 	KnownHits map[string]string // known signature -> first detail
 	Viol      *Violation
 
-	signers map[string]cose.Signer // long-lived Signer objects of this run (world.go)
-	shape   []string
-	sched   []uint64 // schedule hashes of the concurrent blocks of this run
-	trace   []string // rendered operations (kept short)
-	Logged  *strings.Builder
+	signers  map[string]cose.Signer // long-lived Signer objects of this run (world.go)
+	mapPerms int                    // non-identity permutations handed to map ranges of go-cose (instrumented builds)
+	shape    []string
+	sched    []uint64 // schedule hashes of the concurrent blocks of this run
+	trace    []string // rendered operations (kept short)
+	Logged   *strings.Builder
 }
 
 // NewRun prepares a run.
@@ -184,6 +185,27 @@ func Execute(r *Run, sc Scenario) (skipped string) {
 			}
 		}
 	}()
+	if HaveInstr {
+		// every range-over-map loop inside go-cose follows a permutation drawn
+		// from the tape: behaviour that depends on map iteration order is a
+		// replayable function of the tape instead of a runtime coin
+		SetPermHook(func(n int) []int {
+			p := r.T.Perm(n, "maporder")
+			for i, v := range p {
+				if i != v {
+					r.mapPerms++
+					break
+				}
+			}
+			return p
+		})
+		defer func() {
+			SetPermHook(nil)
+			if r.mapPerms > 0 {
+				r.Faults["maporder"] += r.mapPerms
+			}
+		}()
+	}
 	sc(r)
 	return ""
 }
